@@ -94,12 +94,32 @@ pub fn render_obs(c: &RenderCase) -> String {
         // `SourceError::new` makes an error-type display; other types go through a CodeDisplay-level API
         // only via Lexer's Display, so the message type is varied on the highlights instead.
         let _ = c.mtype;
-        for (sp, hls) in &c.displays {
-            let mut sd = SpanDisplay::new(source, *sp);
-            for (i, (h, t)) in hls.iter().enumerate() {
-                sd = sd.with_highlight(Highlight::new(*h, format!("h{i}")).with_message_type(mtype(*t)));
+        for (d, (sp, hls)) in c.displays.iter().enumerate() {
+            // Equivalent builder routes are alternated so that every public way of putting a report
+            // together is exercised (the model has one representation for all of them).
+            let mut sd = if hls.len() == 1 && hls[0].0 == *sp && hls[0].1 == 1 && d % 2 == 1 {
+                SpanDisplay::new_error_highlight(source, *sp, "h0")
+            } else {
+                let mut sd = SpanDisplay::new(source, *sp);
+                for (i, (h, t)) in hls.iter().enumerate() {
+                    let hl = Highlight::new(*h, format!("h{i}"));
+                    let hl = if (i + d) % 2 == 0 { hl.with_message_type(mtype(*t)) } else {
+                        match *t {
+                            1 => hl.with_error_type(),
+                            2 => hl.with_warning_type(),
+                            3 => hl.with_note_type(),
+                            4 => hl.with_help_type(),
+                            _ => hl.with_info_type(),
+                        }
+                    };
+                    sd = sd.with_highlight(hl);
+                }
+                sd
+            };
+            if c.named && d % 2 == 1 {
+                sd = sd.with_source_name("src");
             }
-            err = err.with_span_display(sd);
+            if d % 2 == 0 { err = err.with_span_display(sd); } else { err.push_span_display(sd); }
         }
         let borrowed = format!("{}", err);
         let owned = format!("{}", err.into_owned());
